@@ -4,6 +4,7 @@ CONSTANTS
   MaxBlocks = 3
   Protocols = {2, 3, 4}
   AllPatterns = FALSE
+  StepCheck = TRUE
   AsCoded = TRUE
 INVARIANTS Export FinalEqualsSrc SkippedNeverExceedsProven
 CHECK_DEADLOCK FALSE
